@@ -287,6 +287,7 @@ def run_case(case):
         open_kw = {}
         try:
             refused2 = False
+            after_refusal = False
             if layout in ('single', 'evicted'):
                 ts = TS.create(base_file=base)
                 for t in range(1, ntraj + 1):
@@ -296,6 +297,28 @@ def run_case(case):
                             ts.add(build(case, t))
                         except Exception:
                             refused2 = True
+                        if refused2 and layout == 'single':
+                            # Codec.tla AfterRefusal: the refused addition leaves the store as it was (C10: keys refused-add:*)
+                            # and a further addition - a SPARSE trajectory: no species values, every optional scalar unset -
+                            # gets the next index and reads back as given, without anything the refused one carried (C03)
+                            after_refusal = True
+                            sparse = dict(case, s2={f: [] for f in case['s2']}, unset=['t_f', 't_i', 't_s'], dflt=[case['dflt'][0], 'none'])
+                            try:
+                                if len(ts) != 1:
+                                    devs.append(('refused-add', 'len', f'after the refused addition (a species the file has no position for) len() = {len(ts)}; before it: 1'))
+                                try:
+                                    ts[1]
+                                    devs.append(('refused-add', 'visible', 'after the refused addition store[1] returns a trajectory'))
+                                except IndexError:
+                                    pass
+                                except Exception as e:
+                                    devs.append(('refused-add', 'visible', f'after the refused addition store[1] raises {type(e).__name__} (not IndexError): something is there'))
+                                ix = ts.add(build(sparse, 2))
+                                if ix != 1:
+                                    devs.append(('refused-add', 'next-index', f'the addition after the refused one got index {ix}; specification: 1'))
+                            except Exception as e:
+                                devs.append(('refused-add', f'raised-{type(e).__name__}', f'after the refused addition: {type(e).__name__}: {str(e)[:120]}'))
+                                after_refusal = False
                     else:
                         ts.add(build(case, t))
             elif layout == 'split':
@@ -378,7 +401,19 @@ def run_case(case):
                         raise
                     return devs
             stage = 'read'
-            if refused2:
+            if refused2 and after_refusal:
+                if len(ts) != 2:
+                    devs.append(('refused-add', 'len-after-reopen', f'len() = {len(ts)} after reopening; successful additions: 2 (one refused in between)'))
+                for i in range(min(2, len(ts))):
+                    try:
+                        got = ts[i]
+                    except Exception as e:
+                        devs.append(('refused-add', f'read-raised-{type(e).__name__}', f'store[{i}] after reopening raised {type(e).__name__}: {str(e)[:100]}'))
+                        continue
+                    for f, what, detail in (compare(sparse, 2, got) if i else compare(case, 1, got)):
+                        devs.append((f, what, f'trajectory at index {i} ({"the sparse trajectory added after the refused addition" if i else "trajectory 1"}): {detail}'))
+                ntraj = 0
+            elif refused2:
                 ntraj = 1   # what the refused addition may have left behind is C10's business, not judged here
             elif len(ts) != ntraj:
                 devs.append(('store', 'len', f'len() = {len(ts)} after adding {ntraj}'))
@@ -413,6 +448,28 @@ def run_case(case):
         shutil.rmtree(d, ignore_errors=True)
 
 
+def run_refused(ctx: Ctx):
+    """C10's share of the codec family: the cases whose second trajectory does not fit the file (Codec.tla Fits), in
+    the single-file layout - the refused addition must leave the store as it was."""
+    gen = tlc.check(ctx, 'codec/CodecGen', 'codec/Gen_Codec.cfg', workers=8, sub={'UnsetSpace <- AllUnset': 'UnsetSpace <- SomeUnset'})
+    cases = [c for c in gen['emitted'] if not c.get('fits', True) and c['layout'] == 'single']
+    if ctx.quick:
+        ctx.rng.shuffle(cases)
+        cases = cases[:300]
+    ctx.log(f'{len(cases)} additions refused for a species the file has no position for')
+    for case, devs in zip(cases, pmap(run_case, cases)):
+        ctx.case_done(('refused-add', case['s'], case['unset']), nontrivial=True)
+        seen = set()
+        for f, what, detail in devs:
+            if f == 'machinery':
+                raise MachineryError('codec worker failed: ' + detail)
+            if f != 'refused-add' or (f, what) in seen:
+                continue
+            seen.add((f, what))
+            ctx.violation(f'{f}:{what}', f'layout {case["layout"]}: {detail}', {'codec': case})
+    ctx.extra['refused_for_unknown_species'] = len(cases)
+
+
 def neg_control(ctx, sub, expect):
     sub = dict(sub, **{'U = {1, 3, 5}': 'U = {1, 5}'})  # the defective variants show on the smallest universe with a gap
     res = tlc.run('codec/Codec', 'codec/MC_Codec.cfg', sub=sub)
@@ -445,7 +502,9 @@ def run(ctx: Ctx):
         sim = tlc.check(ctx, 'codec/CodecGen', 'codec/Sim_Codec.cfg', workers=1, simulate='num=1', depth=n + 5, seed=ctx.seed, sub={'D = 100': f'D = {n}'})
         if ctx.quick:
             ctx.rng.shuffle(cases)
-            cases = cases[:700]
+            # (the cases with a refused addition in the single-file layout - Codec.tla AfterRefusal - are few: up to 60 always take part)
+            refusals = [c for c in cases if not c.get('fits', True) and c['layout'] == 'single'][:60]
+            cases = cases[:700] + [c for c in refusals if c not in cases[:700]]
         else:
             ctx.exhaustive = True
         cases = cases + sim['emitted']
@@ -461,6 +520,8 @@ def run(ctx: Ctx):
         for f, what, detail in devs:
             if f == 'machinery':
                 raise MachineryError('codec worker failed: ' + detail)
+            if (f == 'refused-add') != (ctx.pid == 'C10'):
+                continue   # what a refused addition leaves behind is C10's clause; everything read back is C03's
             key = f'{f}:{what}'
             if key in seen:
                 continue
